@@ -51,12 +51,6 @@ def _nt_swallow(pid, v):
             and v["clause"] in ("accepted-rejected-input", "ref-decode-neq", "swallowed-as-default"))
 
 
-@scope("F-UNION-PACK-FIXED-TUPLE")
-def _union_pack_tuple(pid, v):
-    facts = (v["case"].get("facts") or {})
-    return pid == "C11" and v["clause"] == "union-encode-neq" and facts.get("earlier_fixed_tuple_reproduces") is True
-
-
 @scope("F-KWFLAG-MASKS-CALL-DIALECT")
 def _kwflag(pid, v):
     facts = (v["case"].get("facts") or {})
